@@ -101,7 +101,8 @@ def fix_frames(seed):
         r, o = rec.scrub("full"); d.append("corrupt B[0]; scrub -> %s" % o["exit"])
         a.remove(0, "B"); rec.env("delete B", damage=True)
         a.remove(0, "A"); rec.env("delete A", damage=True)
-        r, o = rec.fix(filt={"bad": rng.choice(["file", "block"])}); d.append("delete A B; fix -e/-b -> %s" % o["exit"])
+        r, o = rec.fix(filt={"bad": "block"}); d.append("delete A B; fix -b -> %s" % o["exit"])
+        r, o = rec.fix(filt={"bad": "file"}); d.append("fix -e -> %s" % o["exit"])
         r, o = rec.fix(filt={"missing": True}); d.append("fix -m -> %s" % o["exit"])
         r, o = rec.fix(); d.append("fix -> %s" % o["exit"])
         r, o = rec.scrub("bad"); d.append("scrub -p bad -> %s" % o["exit"])
@@ -124,4 +125,81 @@ def fix_frames(seed):
     finally:
         snap.destroy()
         a.destroy()
+    return rec, d
+
+
+def fix_links(seed):
+    """C01 for links and directories: recorded symbolic links, hard links and empty directories are restored by fix whatever
+    happened to them (lost, replaced by something else, hard link separated from its target because the target was re-created)"""
+    import os, random
+    rng = random.Random(seed)
+    a = arr.Array(arr.Conf(nd=2, np=1, copies=2), seed=seed)
+    a.write_file(0, "A", [1, 2], mtime=11)
+    a.write_file(0, "B", [3], mtime=12)
+    a.write_file(1, "C", [4, 5, 6], mtime=13)
+    os.link(a.path(0, "A"), a.path(0, "H1"))              # H1 sorts after A: A is the file, H1 the hard link
+    os.symlink("A", a.path(0, "L1"))
+    os.symlink("missing target", a.path(1, "L2"))
+    os.makedirs(a.path(0, "E1")); os.makedirs(a.path(1, "sub/E2"))
+    rec = recorder.Recorder(a)
+    d = ["init A B H1=A L1->A E1 / C L2 sub/E2"]
+    r, o = rec.sync(); d.append("sync -> %s" % o["exit"])
+
+    def fix_check(what):
+        a.clock += 10
+        r, o = rec.fix(); rec.lines[-1]["args"]["expect_c01"] = True; d.append("%s; fix -> %s" % (what, o["exit"]))
+        r, o = rec.check(); d.append("check -> %s" % o["exit"])
+
+    # the target of the hard link is lost: fix re-creates it with a new inode, the link name still is a separate file
+    os.remove(a.path(0, "A")); rec.env("lose A (H1 keeps the old inode)", damage=True)
+    fix_check("lose A")
+    # the link name is lost
+    os.remove(a.path(0, "H1")); rec.env("lose H1", damage=True)
+    fix_check("lose H1")
+    # links lost / retargeted, directories lost
+    os.remove(a.path(0, "L1")); os.symlink("B", a.path(0, "L1")); os.remove(a.path(1, "L2"))
+    os.rmdir(a.path(0, "E1")); os.rmdir(a.path(1, "sub/E2"))
+    rec.env("retarget L1, lose L2, lose the empty directories", damage=True)
+    fix_check("links and directories damaged")
+    # a whole disk is lost
+    a.lose_disk(0); rec.env("lose disk 0", damage=True)
+    fix_check("lose disk 0")
+    a.destroy()
+    return rec, d
+
+
+def link_kinds(seed):
+    """C11: a link that changes its kind but not its name and target string (symbolic link <-> hard link), links that change
+    target, links and directories that appear and disappear: diff reports each, sync records each, list shows the new state"""
+    import os
+    a = arr.Array(arr.Conf(nd=2, np=1, copies=2), seed=seed)
+    a.write_file(0, "A", [1, 2], mtime=11)
+    a.write_file(1, "C", [3], mtime=12)
+    os.symlink("A", a.path(0, "L1"))
+    rec = recorder.Recorder(a)
+    d = ["init A L1->A / C"]
+    r, o = rec.sync(); d.append("sync -> %s" % o["exit"])
+
+    def round_(what):
+        rec.env(what); d.append(what)
+        r, o = rec.diff(); d.append("diff -> %s" % o["exit"])
+        a.clock += 10
+        r, o = rec.sync(); d.append("sync -> %s" % o["exit"])
+        r, o = rec.diff(); d.append("diff -> %s" % o["exit"])
+        r, o = rec.list(); d.append("list -> rc %s" % o["rc"])
+        r, o = rec.check(); d.append("check -> %s" % o["exit"])
+
+    os.remove(a.path(0, "L1")); os.link(a.path(0, "A"), a.path(0, "L1"))
+    round_("L1 becomes a hard link of A (same name, same target string)")
+    os.remove(a.path(0, "L1")); os.symlink("A", a.path(0, "L1"))
+    round_("L1 becomes a symbolic link to A again")
+    os.remove(a.path(0, "L1")); os.symlink("C", a.path(0, "L1"))
+    round_("L1 retargeted")
+    os.makedirs(a.path(1, "E1"))
+    round_("empty directory E1 appears")
+    a.write_file(1, "E1/X", [4], mtime=20)
+    round_("E1 is no longer empty")
+    os.remove(a.path(0, "L1"))
+    round_("L1 removed")
+    a.destroy()
     return rec, d
